@@ -123,6 +123,11 @@ def _py(v):
 def _exact(stat, m):
     if isinstance(m, pd.Timestamp) or isinstance(stat, pd.Timestamp):
         try:
+            if isinstance(stat, pd.Timestamp) and isinstance(m, pd.Timestamp) \
+                    and (stat.tz is None) != (m.tz is None):
+                # time zone aware objects are validated (coerce=True) as time
+                # zone naive UTC values: equality of the instants
+                return stat.value == m.value
             return isinstance(stat, pd.Timestamp) and \
                 isinstance(m, pd.Timestamp) and stat == m \
                 and stat.value == m.value
